@@ -117,7 +117,7 @@ func TestC09(t *testing.T) {
 		for _, c := range vt.TLCCases(t) {
 			wls = append(wls, decode[limiterWorkload](map[string]any(c)))
 		}
-		nW := vt.Pick(16, 120)
+		nW := vt.Pick(16, 70)
 		perWorld := vt.Pick(12, 20)
 		if len(wls) > nW {
 			p := rnd.Perm(len(wls))
@@ -137,7 +137,7 @@ func TestC09(t *testing.T) {
 			}
 		}
 		// seeded random worlds with requests aimed at them
-		for i := 0; i < vt.Pick(8, 80); i++ {
+		for i := 0; i < vt.Pick(8, 40); i++ {
 			w := concretise(rnd, randWorld(rnd))
 			for j := 0; j < vt.Pick(3, 4); j++ {
 				req := concretiseReq(rnd, worldReq(rnd, w))
